@@ -414,6 +414,9 @@ def run(ctx):
     rep.rule('R8.8', 'the sort that orders the inputs of the merges is the one C05 decides: run / merge agreement, stable merge, Comparable keys, tuple copies (C05 imported for petl.transform.sorts)')
     from .common import import_sort_obligations
     ctx.attempt(import_sort_obligations, ctx, rep, 'R8.8')
+    rep.rule('R8.9', 'rowgetter, the projection that cuts b by the header of a (recordcomplement / recorddiff): for every index tuple of length 0..4 over positions 0..3 and every row length 0..5 the selector read off the source returns tuple(row[i] for i in indices) or raises IndexError (finite-domain evaluation of the source with opaque cells; nothing of petl is run)')
+    from .projection import check_rowgetter
+    ctx.attempt(check_rowgetter, ctx, rep, 'R8.9')
 
 
 # ------------------------------------------------------------------------- R8.3
